@@ -83,6 +83,14 @@ class Sym:
         self.F = body.f
         self.nparams = body.mir["arg_count"]
         self._prom = {}
+        self.enums = {}  # ('discr', e) -> (enum path, {discriminant: variant name})
+
+    def variant(self, discr_expr, value):
+        """Variant name selected by switch value `value` on `discr_expr` (raw, un-normalised)."""
+        info = self.enums.get(discr_expr)
+        if not info:
+            return None
+        return info[1].get(value)
 
     def promoted(self, idx):
         """Value of promoted constant #idx of this body (a reference to a constant value)."""
@@ -153,6 +161,8 @@ class Sym:
     def _read_lv(self, env, lv):
         """Value stored at lvalue tree `lv`."""
         k = lv[0]
+        if k == "val":
+            return lv[1]
         if k == "lv":
             v = env["locals"].get(lv[1])
             if v is None:
@@ -213,20 +223,29 @@ class Sym:
         if rv == "cast":
             return ("cast", s["kind"], self.F.tys(s["ty"]), self.operand(env, s["op"]))
         if rv == "ref":
-            return ("ref", s["bk"] == "mut", self.place_expr(env, s["place"]))
+            pe = self.place_expr(env, s["place"])
+            if s["bk"] != "mut" and pe[0] == "lv":
+                v = env["locals"].get(pe[1])
+                if v is not None and v[0] in ("call", "const", "cpath", "bin", "cast", "field", "variant", "load", "param", "index", "cindex"):
+                    # shared reference to a temporary holding a known value
+                    return ("ref", False, ("val", v))
+            return ("ref", s["bk"] == "mut", pe)
         if rv == "rawptr":
             return ("rawptr", s["mut"], self.place_expr(env, s["place"]))
         if rv == "copy_for_deref":
             return self.read(env, s["place"])
         if rv == "discr":
-            return ("discr", self.read(env, s["place"]))
+            e = ("discr", self.read(env, s["place"]))
+            if "variants" in s:
+                self.enums[e] = (s.get("enum"), {int(k): v for k, v in s["variants"].items()})
+            return e
         if rv == "agg":
             kind = s["agg"]
             if kind == "adt":
                 kind = "adt:%s::%s" % (s["path"], s["vname"])
             elif kind == "closure":
                 kind = "closure:%s" % s["path"]
-            return ("agg", kind, [self.operand(env, o) for o in s["ops"]])
+            return ("agg", kind, tuple(self.operand(env, o) for o in s["ops"]))
         if rv == "repeat":
             n = s["n"]
             nn = ("const", n["v"]) if n.get("k") == "val" else (("cparam", n["n"]) if n.get("k") == "cparam" else ("cexpr", str(n)))
@@ -314,9 +333,9 @@ class Sym:
             if k == "call":
                 c = t["callee"]
                 path = engine.callee_path(t) or "<indirect>"
-                args = [self.operand(env, a) for a in t["args"]]
+                args = tuple(self.operand(env, a) for a in t["args"])
                 if "indirect" in c:
-                    args = [self.operand(env, c["indirect"])] + args
+                    args = (self.operand(env, c["indirect"]),) + args
                 p.calls.append((bb, path, args, c))
                 # a callee receiving &mut P may change P
                 for a in args:
@@ -457,6 +476,8 @@ def fmt(e, depth=0):
         return "load(%s)" % fmt(e[1], depth + 1)
     if k == "lv":
         return "_%d" % e[1]
+    if k == "val":
+        return fmt(e[1], depth + 1)
     if k == "discr":
         return "discr(%s)" % fmt(e[1], depth + 1)
     if k == "len":
@@ -470,10 +491,14 @@ def fmt(e, depth=0):
 
 def walk(e, fn):
     """Pre-order traversal calling fn(subexpr)."""
-    fn(e)
     if not isinstance(e, tuple):
         return
-    for x in e[1:]:
+    if e and isinstance(e[0], str):
+        fn(e)
+        rest = e[1:]
+    else:
+        rest = e
+    for x in rest:
         if isinstance(x, tuple):
             walk(x, fn)
         elif isinstance(x, list):
